@@ -125,7 +125,7 @@ def parse_desc(desc):
 HUNG = set()   # strategies that already spun without starting a test in this process: reported, not waited for again
 
 
-def run_real(name, cfg, tc, decider, clock_times=None, max_tests=100000, watchdog=15.0):
+def run_real(name, cfg, tc, decider, clock_times=None, max_tests=100000, watchdog=15.0, strategy=None):
     """decider(k, content_bytes) -> bool for the k-th test of the strategy (0-based)"""
     import signal
 
@@ -141,7 +141,7 @@ def run_real(name, cfg, tc, decider, clock_times=None, max_tests=100000, watchdo
     old_handler = signal.signal(signal.SIGALRM, _alarm)
     signal.setitimer(signal.ITIMER_REAL, watchdog)
     try:
-        r = _run_real(S, name, cfg, tc, decider, clock_times, max_tests, watchdog)
+        r = _run_real(S, name, cfg, tc, decider, clock_times, max_tests, watchdog, strategy)
         if r.error and r.error.startswith("hang") and not cfg.get("move"):
             HUNG.add(key)
         return r
@@ -150,11 +150,11 @@ def run_real(name, cfg, tc, decider, clock_times=None, max_tests=100000, watchdo
         signal.signal(signal.SIGALRM, old_handler)
 
 
-def _run_real(S, name, cfg, tc, decider, clock_times, max_tests, watchdog):
+def _run_real(S, name, cfg, tc, decider, clock_times, max_tests, watchdog, strategy=None):
     import signal
 
 
-    st = make_strategy(name, cfg)
+    st = strategy if strategy is not None else make_strategy(name, cfg)   # `strategy`: an object that has reduced other files before
     clk = Clock(clock_times or [])
     old_time = S.time
     S.time = clk
